@@ -497,25 +497,39 @@ pub struct GenIter {
     pub remaining: usize,
     pub slack_lo: usize,
     pub slack_hi: Option<usize>,
+    /// not fused: after its first `None` the iterator would hand out this many further objects (ids 0x60..) if it
+    /// were polled again; a consumer that stops at the first `None`, as `for` / `for_each` do, never sees them
+    pub after_none: usize,
+    pub ended: bool,
 }
 impl GenIter {
     pub fn new(next: u8, remaining: usize) -> GenIter {
-        GenIter { next, remaining, slack_lo: 0, slack_hi: Some(0) }
+        GenIter { next, remaining, slack_lo: 0, slack_hi: Some(0), after_none: 0, ended: false }
     }
-    /// symbolic, contract-abiding size hint
+    /// symbolic, contract-abiding size hint; symbolic behaviour after the first `None`
     pub fn with_hint<S: Src>(next: u8, remaining: usize, s: &mut S) -> GenIter {
         let slack_lo = s.usize();
         s.assume(slack_lo <= remaining);
         let bounded = s.bool();
         let extra = s.usize();
-        GenIter { next, remaining, slack_lo, slack_hi: if bounded { Some(extra) } else { None } }
+        let after_none = s.usize();
+        s.assume(after_none <= 2);
+        GenIter { next, remaining, slack_lo, slack_hi: if bounded { Some(extra) } else { None }, after_none, ended: false }
     }
 }
 impl Iterator for GenIter {
     type Item = Tok;
     fn next(&mut self) -> Option<Tok> {
         if self.remaining == 0 {
-            return None;
+            if !self.ended {
+                self.ended = true;
+                return None;
+            }
+            if self.after_none == 0 {
+                return None;
+            }
+            self.after_none -= 1;
+            return Some(Tok::new(0x60 + self.after_none as u8));
         }
         self.remaining -= 1;
         if self.slack_lo > self.remaining {
